@@ -370,6 +370,30 @@ def run(chk: lib.Check):
                 rng.shuffle(above)
                 anchors = above[: (6 if quick else 14)] + anchors[:2]
             xts = sorted(raw)
+            # untyped searches: everything that has an xsi:type (nothing else), model-wide and below every anchor
+            all_typed = {id(e) for els_ in raw.values() for e in els_}
+            try:
+                got_all = model.search()
+                # diagrams are reported as well (representation descriptors of the .aird): the comparison is about the semantic elements
+                g_ = [id(e) for e in got_all._elements if loader.find_fragment(e).suffix in graph.SEMANTIC]
+                stats["untyped_search_checked"] += 1
+                if set(g_) != all_typed or len(g_) != len(set(g_)):
+                    chk.violation("search:untyped", f"search() without a type returns {len(g_)} elements ({len(set(g_))} distinct), a scan finds {len(all_typed)} typed elements",
+                                  {"model": spec0["name"], "state": state})
+            except Exception as ex:  # noqa: BLE001
+                chk.violation(f"search-raises:untyped:{type(ex).__name__}", f"search() raised {ex!r}", {"model": spec0["name"], "state": state})
+            for a in anchors:
+                try:
+                    got_b = model.search(below=a)
+                except Exception as ex:  # noqa: BLE001
+                    chk.violation(f"search-below-raises:untyped:{type(ex).__name__}", f"search(below={a.uuid}) raised {ex!r}", {"model": spec0["name"], "state": state})
+                    continue
+                w_ = {id(e) for els_ in raw.values() for e in els_ if any(anc is a._element for anc in glued_ancestors(e))}
+                g_ = [id(e) for e in got_b._elements if loader.find_fragment(e).suffix in graph.SEMANTIC]
+                stats["untyped_search_below_checked"] += 1
+                if set(g_) != w_ or len(g_) != len(set(g_)):
+                    chk.violation("search-below:untyped", f"search(below={type(a).__name__} {a.uuid}) returns {len(g_)} elements ({len(set(g_))} distinct), a scan finds {len(w_)}",
+                                  {"model": spec0["name"], "state": state, "anchor": a.uuid, "extra": len(set(g_) - w_), "missing": len(w_ - set(g_))})
             for xt in (xts if state == "edited" or not quick else rng.sample(xts, min(25, len(xts)))):
                 want = {id(e) for e in raw[xt]}
                 for form in ("full", "class", "short"):
